@@ -234,6 +234,10 @@ Fixpoint scan_fields (fuel : nat) (delim : str) (cmdmode : bool) (fs : list fiel
                                 c_args_required := sa_argsreq sc;
                                 c_hidden := nonempty (tm_get m (s2l "hidden"));
                                 c_exec := ExNone; c_usage := None; c_has_help := false |} in
+                   (* Command.Hidden is the Hidden field of the embedded Group *)
+                   let g := let 'Group gi os gs := g in
+                            Group {| g_short := g_short gi; g_long := g_long gi; g_ns := g_ns gi; g_envns := g_envns gi;
+                                     g_hidden := c_hidden ci; g_builtin_help := false |} os gs in
                    Ok {| sa_opts := sa_opts acc; sa_groups := sa_groups acc; sa_args := sa_args acc;
                          sa_argsreq := sa_argsreq acc;
                          sa_cmds := sa_cmds acc ++ [Command ci g (sa_args sc) (sa_cmds sc)];
